@@ -866,17 +866,20 @@ class C06(Property):
         "schema_fields", "addUnseen_spec", "addAndOverwrite_spec",
         "WF_of_wfB", "C06_full_fails",
         "userFields_preparedFields", "compound_fields_history_independent", "compoundInit_stores",
-        "compoundInit_preparedFrom", "lookup_ne_preparedFrom",
+        "compoundInit_preparedFrom", "lookup_ne_preparedFrom", "frame_lazy", "step_lazy_state",
     )]
-    level_text = "proof"
-    level_note = ("frame (every non-lazy-preparation step leaves every observable attribute and property of every "
-                  "pre-existing class unchanged), instance_local and schema_fields (Nodup + overlay characterisation) are "
-                  "proved for all stores/inputs of the model; the unrestricted frame statement C06_Full is false because of "
-                  "the lazy preparation of compound types (negation witness); well-formedness of reachable stores, the frame "
-                  "condition for lazy preparation (all attributes but field_schema) and history independence are checked by "
-                  "the runner/oracle on every generated chain, not proved; the regeneration rule of DateYYYYMMDD (member list after "
-                  "preparation = user-supplied members + year/month/day generated from the class's own optional, whether or "
-                  "not an ancestor was prepared before) is proved as compound_fields_history_independent")
+    level_text = "proof (partial: one-step frame with hypothesis lazyPrep = none; KF-C06-a open)"
+    level_note = ("PROVED for every well-formed store of the model: frame / frame_partial / frame_observe (ONE step, hypothesis "
+                  "lazyPrep σ s = none: no attribute, list content or property of a pre-existing class changes), frame_lazy "
+                  "(a lazily preparing instantiation of p changes only field_schema and only of classes with p in their MRO), "
+                  "instance_local (a non-compound instantiation leaves the model store unchanged — model stores hold classes of "
+                  "one element kind only, so containers with compound members are outside it), schema_fields (Nodup + overlay), "
+                  "compound_fields_history_independent (regeneration rule).  REFUTED: C06_Full (C06_full_fails) = open finding "
+                  "KF-C06-a (lazy preparation rebinds field_schema of the prepared class and its inheriting descendants).  NOT "
+                  "PROVED: well-formedness along histories (no WF_step: the frame theorems are one-step; WF is re-checked "
+                  "decidably after every step by the runner), 'the returned class is a new direct subclass' (oracle clause "
+                  "new-subclass only), general history independence beyond the compound regeneration rule (oracle clause "
+                  "history-independent only), containers holding compounds (oracle only, has_model = False)")
     technique = "Lean 4 model (class store + heap of list objects) + frame theorem by store extension; differential testing"
     trusted_base = [
         "Python's class machinery (type(), attribute lookup along a single-inheritance MRO, instance __dict__) is the "
@@ -884,6 +887,11 @@ class C06(Property):
         "validators are opaque labelled callables",
     ]
     assumptions = [
+        "every class of a model store has the element kind of class 0: containers whose members are lazily prepared compounds "
+        "are generated (of_date) but checked by the oracle only",
+        "16 of the 23 exported element types start chains (not SparseDict, JoinedString, Compound, Schema/Form/SparseSchema "
+        "as chain roots; declarative Schema field collection is covered as its own case kind, constructor chains on "
+        "declarative schemas are not)",
         "constructor chains use single inheritance (class_cloner always derives one direct subclass); multiple "
         "inheritance is covered for declarative Schema field collection only",
         "members generated by DateYYYYMMDD.__compound_init__ are observed as (name, format, optional, generated) records",
